@@ -1,6 +1,7 @@
 mod util;
 mod host;
 mod props;
+mod mp;
 
 use util::{Driver, Report};
 
@@ -20,12 +21,17 @@ fn main() {
     // silence panic messages of caught panics (they are reported through the report)
     std::panic::set_hook(Box::new(|_| {}));
     let t0 = std::time::Instant::now();
-    let report: Report = match prop.as_str() {
-        "C21" => props::c21::run(&mut ctx),
-        "C22" => props::c22::run(&mut ctx),
+    let mut report = Report::new(&prop, "");
+    let res = std::panic::catch_unwind(std::panic::AssertUnwindSafe(|| match prop.as_str() {
+        "C21" => props::c21::run(&mut ctx, &mut report),
+        "C22" => props::c22::run(&mut ctx, &mut report),
         _ => { eprintln!("unknown property {prop}"); std::process::exit(2); }
-    };
+    }));
     let mut j = report.to_json();
+    if let Err(e) = res {
+        let msg = if let Some(s) = e.downcast_ref::<String>() { s.clone() } else if let Some(s) = e.downcast_ref::<&str>() { s.to_string() } else { "panic".into() };
+        j["harness_panic"] = serde_json::json!(msg);
+    }
     j["wall_s"] = serde_json::json!(t0.elapsed().as_secs_f64());
     j["driver_requests"] = serde_json::json!(ctx.driver.requests);
     std::fs::write(&args[5], serde_json::to_string_pretty(&j).unwrap()).unwrap();
